@@ -1088,8 +1088,46 @@ func checkRsrcAccessors(c *core.Ctx) {
 			}
 		}
 		if !found {
-			st.Ob(false)
-			c.Undecided("R13.9", fn, fn.Pos(), "rsrc-field:"+name, name+" no longer decodes its field with a single extractBits call; it cannot be compared with the table")
+			// the field is decoded some other way (a mask constant and a shift, a helper of the
+			// package): the accessor is interpreted on the bits of the two resource words
+			// (BITPROV) and its result must be the published range in the low bits and zero above;
+			// a boolean result must be the one published bit
+			ev := &bpEval{}
+			ev.load = func(ld *ssa.UnOp, fr *bpFrame) (pval, bool) {
+				if f := core.LoadedField(ld); f != nil && (f.Name() == "ComputePgmRsrc1" || f.Name() == "ComputePgmRsrc2") {
+					return pSym(f.Name(), 32), true
+				}
+				return pval{}, false
+			}
+			got := ev.Call(fn, []pval{{}})
+			ok := false
+			switch got.kind {
+			case pVec:
+				ok = true
+				for i := 0; i < 64; i++ {
+					wantB := pbit{k: '0'}
+					if int64(i) <= want.hi-want.lo {
+						wantB = pbit{k: 's', src: want.word, i: int(want.lo) + i}
+					}
+					g := got.bits[i]
+					if g.k == 0 {
+						g = pbit{k: '0'}
+					}
+					if g != wantB {
+						ok = false
+					}
+				}
+			case pBool:
+				ok = want.lo == want.hi && got.bits[0] == pbit{k: 's', src: want.word, i: int(want.lo)}
+			}
+			st.Ob(ok)
+			if !ok {
+				if got.kind == pUnknown {
+					c.Undecided("R13.9", fn, fn.Pos(), "rsrc-field:"+name, name+" decodes its field neither with a single extractBits call nor by an expression that can be interpreted bit by bit ("+ev.why+"); it cannot be compared with the table")
+				} else {
+					c.ReportAt("R13.9", fn, fn.Pos(), "rsrc-field:"+name, fmt.Sprintf("%s returns %s; the published layout has the field at bits [%d:%d] of %s", name, got.render(32), want.hi, want.lo, want.word))
+				}
+			}
 		}
 	}
 }
